@@ -32,6 +32,9 @@ ASSUMPTIONS = [
     "a truncated or corrupted stream may also be *returned* as (short) messages: the statement allows it",
     "thorough 24-bit sweeps run without the line monitor behind a 5 s alarm; every input the alarm stops is "
     "re-run under the step counter, which decides",
+    "time spent inside one source line (regular expressions, C-level loops) is bounded by processor time: 6 s + "
+    "step bound / 50000 s of the process's own CPU time (ITIMER_VIRTUAL) per input, against milliseconds for "
+    "well-formed inputs",
 ]
 
 A, B, C = 150000, 5300, 0.2
@@ -39,6 +42,13 @@ A, B, C = 150000, 5300, 0.2
 
 def bound(n):
     return int(A + B * n + C * n * n)
+
+
+CPU_LIMIT = 6.0
+
+
+class _CpuLimit(BaseException):
+    pass
 
 
 def is_lib_error(e):
@@ -58,8 +68,34 @@ def judge(rep, data, entry, kind):
     """Runs one decoder entry point on one byte string under the step counter."""
     from bromelia.base import DiameterMessage, DiameterAVP, DiameterHeader
     fn = {"message": DiameterMessage.load, "avp": DiameterAVP.load, "header": DiameterHeader.load}[entry]
-    outcome, val, n = steps.run_bounded(lambda: fn(data), bound(len(data)))
+    # the step counter sees source lines; time spent *inside* one line (a regular expression that backtracks,
+    # a C-level loop) is bounded by processor time: CPU_LIMIT seconds of this process's own CPU time for one
+    # input of at most a few kilobytes, where a well-formed one takes milliseconds
+    import signal
+
+    def on_cpu(signum, frame):
+        raise _CpuLimit()
+    old = signal.signal(signal.SIGVTALRM, on_cpu)
+    # ... on top of what the permitted number of lines may cost (>= 50 000 monitored lines per second even on a
+    # crowded machine), so that the two bounds never contradict each other
+    cpu_limit = CPU_LIMIT + bound(len(data)) / 50000.0
+    signal.setitimer(signal.ITIMER_VIRTUAL, cpu_limit)
+    try:
+        try:
+            outcome, val, n = steps.run_bounded(lambda: fn(data), bound(len(data)))
+        finally:
+            signal.setitimer(signal.ITIMER_VIRTUAL, 0)
+            signal.signal(signal.SIGVTALRM, old)
+    except _CpuLimit:
+        outcome, val, n = "cpulimit", None, 0
+    if outcome == "raise" and isinstance(val, _CpuLimit):
+        outcome = "cpulimit"
     wit = {"entry": entry, "data": data.hex(), "kind": kind}
+    if outcome == "cpulimit":
+        rep.violation(f"C03:decode:{entry}:hang-or-superlinear:cpu:{kind}",
+                      f"{entry} load of {len(data)} bytes ({kind}) used more than {cpu_limit:.1f} s of processor time without "
+                      f"finishing: {data.hex()[:120]}", wit)
+        return
     if outcome == "return":
         rep.outcome(("return", entry))
         return
@@ -177,6 +213,12 @@ def fault_cases(tier):
                      b"\x00\x02" + b"\x01" * 17, b"\x00\x03\x01\x02\x03\x04", b"\xff\xff" + b"\x00" * 16]
         elif t == "DiameterURI":
             datas = [b"", b"\xff\xfe\xfd", b"http://x.example", b"aaa://", b"aaa://\xc3\x28", b"\x80abc"]
+            # long hosts (one label, many labels) followed by tails the grammar does not accept: a pattern that
+            # backtracks over the host needs time exponential in its length
+            for host in (b"a" * 30, b"a" * 48, b"a" * 62, b"ab." * 16, b"a-" * 24, b"x" * 40 + b".example.com"):
+                for tail in (b";transport=TCP", b"!", b":70000;x", b" ", b";", b":"):
+                    datas.append(b"aaa://" + host + tail)
+                    datas.append(b"aaas://" + host + tail)
         elif t == "Grouped":
             datas = [b"", b"\x00", b"\x00" * 7, b"\x00" * 8, b"\xff" * 12, bytes(range(1, 21)),
                      refcodec.enc_avp((9999, 0, None, b"\x01"))]
@@ -184,7 +226,7 @@ def fault_cases(tier):
             datas = [b"\xff\xfe", b"\xc3\x28", b"\x00"]
         else:
             datas = [b"", b"\xff" * 3]
-        if tier == "quick":
+        if tier == "quick" and t != "DiameterURI":
             datas = datas[:4]
         for d in datas:
             one = refcodec.enc_avp((code, flags, vendor, d))
